@@ -15,6 +15,11 @@ S3  concurrent histories with eviction pressure or failures under a finite maxsi
     F3 cannot explain stay strict; the F3-explainable symptoms (internal KeyError,
     overlapping executions of one key, retention above maxsize, stale token) are attributed
     to F3 only if the history shows the F3 precondition before the symptom.
+    cache_clear() may be called by an agent at any cycle of an S2/S3 history: a call issued
+    after a clear must not be served a result whose computation was triggered before it, an
+    overlap of two executions is tolerated only when a clear separates the two triggering
+    calls; under a finite maxsize a clear with calls in flight is the precondition of the
+    second known finding of this family (F16).
 S4  phased histories: a concurrent warm-up on <= maxsize keys without failures (no eviction
     possible, so F3 is out of play; waiters are served by in-flight computations), then
     sequential calls that force evictions: which calls execute must agree with a reference
